@@ -691,6 +691,10 @@ async def read_share_chunk(
     insofar as it doesn't always require a range.  In practice a range is
     always provided by the current callers.
     """
+    if length == 0:
+        # An empty range cannot be expressed in a Range header (and werkzeug
+        # refuses to build one); the answer is known without asking.
+        return b""
     url = client.relative_url(
         "/storage/v1/{}/{}/{}".format(
             share_type, _encode_si(storage_index), share_number
